@@ -215,6 +215,13 @@ class Ctx:
         ob[1] += 1
         return True
 
+    def holds(self, cond):
+        """is cond valid under the path condition? (diagnosis only: records no obligation)"""
+        cond = _expr(cond)
+        if isinstance(cond, bool):
+            return cond
+        return not self._sat(z3.Not(cond))
+
     def _violation(self, label, info):
         if len(self.violations) + len(self._pviol) >= self.max_violations:
             return
@@ -504,6 +511,9 @@ class ReplayCtx:
 
     def eq(self, a, b):
         return a == b
+
+    def holds(self, cond):
+        return bool(cond)
 
     def concrete(self):
         return True
